@@ -131,10 +131,10 @@ func (e *Engine) setupIntrinsics() {
 	}
 	I[rt("Cover")] = func(e *Engine, s *State, t *Thread, f *Frame, args []Value, _ ssa.Value) (Value, bool) {
 		l := args[0].(Str).S
-		e.coversDecl[l] = true
 		if !e.coversHit[l] {
 			if r, _ := e.sat(s); r == Sat {
 				e.coversHit[l] = true
+				e.coversDecl[l] = true
 			}
 		}
 		s.covers[l] = true
@@ -196,6 +196,11 @@ func (e *Engine) setupIntrinsics() {
 			return ret(i64(v))
 		}
 		return ret(args[1])
+	}
+	I[rt("Concretize")] = func(e *Engine, s *State, t *Thread, f *Frame, args []Value, _ ssa.Value) (Value, bool) {
+		x := args[0].(*Term)
+		v := e.concretize(s, x, "vr.Concretize")
+		return ret(BVConst(64, v))
 	}
 	I[rt("Symbolic")] = func(e *Engine, s *State, t *Thread, f *Frame, args []Value, _ ssa.Value) (Value, bool) {
 		return ret(TTrue)
